@@ -47,6 +47,30 @@ func jsonShape(b Bytes) (kind string, content Str, ok bool) {
 // A kind mismatch returns a non-nil error and leaves the target untouched (documented behaviour of encoding/json for
 // these cases). Everything else is undecided.
 func jsonUnmarshalModel(m *Machine, a []Value) Value {
+	if obj, isObj := a[0].(JSONObj); isObj {
+		ifc, ok := a[1].(Iface)
+		if !ok {
+			panic(m.undecided("encoding/json.Unmarshal into %T", a[1]))
+		}
+		pt, ok := ifc.T.Underlying().(*types.Pointer)
+		ptr, ok2 := ifc.V.(Ptr)
+		if !ok || !ok2 || ptr.P == nil {
+			return mkErr(Lit("json: Unmarshal(non-pointer or nil)"))
+		}
+		if named, isNamed := pt.Elem().(*types.Named); isNamed {
+			for i := 0; i < named.NumMethods(); i++ {
+				if named.Method(i).Name() == "UnmarshalJSON" {
+					panic(m.undecided("encoding/json.Unmarshal into %s, which has its own UnmarshalJSON (outside the model)", named))
+				}
+			}
+		}
+		st, isStruct := pt.Elem().Underlying().(*types.Struct)
+		if !isStruct {
+			return mkErr(Lit("json: cannot unmarshal object into Go value of type " + pt.Elem().String()))
+		}
+		m.Assume("encoding/json.Unmarshal of a flat object is modelled: members matched to fields by json tag (embedded structs searched, pointer embeddings allocated), unknown members ignored")
+		return m.decodeObject(obj, st, ptr.P)
+	}
 	data, ok := a[0].(Bytes)
 	if !ok {
 		panic(m.undecided("encoding/json.Unmarshal on %T (no summary)", a[0]))
@@ -197,4 +221,168 @@ func itoa(x int64) string {
 		return "-" + string(b)
 	}
 	return string(b)
+}
+
+// JSONObj stands for the []byte of a flat JSON object whose member values are JSON strings (Str) or
+// `{"<name>": {}}` (JSONMember1): enough to drive the keyword-folding decoders. The decoders hand it to
+// json.Unmarshal unchanged; any other use (indexing, len) is undecided.
+type JSONObj struct {
+	Keys []string
+	Vals []Value
+}
+
+// JSONMember1 is the JSON value {"<Name>": {}}.
+type JSONMember1 struct{ Name Str }
+
+// decodeObject models json.Unmarshal of a JSONObj into a struct: members are matched to fields by json tag (embedded
+// structs are searched like encoding/json does, pointer embeddings allocated on demand); unknown members are ignored.
+func (m *Machine) decodeObject(obj JSONObj, st *types.Struct, slot *Value) Value {
+	for i, k := range obj.Keys {
+		path, ft := jsonFieldPath(st, k, 0)
+		if path == nil {
+			continue
+		}
+		// walk / allocate
+		cur := slot
+		curT := types.Type(st)
+		for pi, idx := range path {
+			sv, ok := (*cur).(Struct)
+			if !ok {
+				panic(m.undecided("json model: target is not a struct (%T)", *cur))
+			}
+			f := &sv.F[idx]
+			stt := curT.Underlying().(*types.Struct)
+			ftype := stt.Field(idx).Type()
+			if pi == len(path)-1 {
+				v, err := m.decodeMember(obj.Vals[i], ft)
+				if err != nil {
+					return err
+				}
+				*f = v
+				*cur = sv
+				break
+			}
+			// embedded
+			if pt, isPtr := ftype.Underlying().(*types.Pointer); isPtr {
+				p, _ := (*f).(Ptr)
+				if p.P == nil {
+					p = m.NewPtr(m.Zero(pt.Elem()), "embedded (allocated by the json model)")
+					*f = p
+				}
+				*cur = sv
+				cur, curT = p.P, pt.Elem()
+			} else {
+				*cur = sv
+				cur, curT = f, ftype
+			}
+		}
+	}
+	return Iface{}
+}
+
+func (m *Machine) decodeMember(v Value, ft types.Type) (Value, Value) {
+	switch x := v.(type) {
+	case Str:
+		if b, ok := ft.Underlying().(*types.Basic); ok && b.Kind() == types.String {
+			return x, nil
+		}
+		return nil, mkErr(Lit("json: cannot unmarshal string into Go value of type " + ft.String()))
+	case JSONMember1:
+		mt, ok := ft.Underlying().(*types.Map)
+		if !ok {
+			return nil, mkErr(Lit("json: cannot unmarshal object into Go value of type " + ft.String()))
+		}
+		mp := &Map{}
+		var elem Value
+		if pt, isPtr := mt.Elem().Underlying().(*types.Pointer); isPtr {
+			elem = m.NewPtr(m.Zero(pt.Elem()), "member decoded from {} (json model)")
+		} else {
+			elem = m.Zero(mt.Elem())
+		}
+		m.MapUpdate(mp, x.Name, elem)
+		return mp, nil
+	}
+	panic(m.undecided("json model: member value %T", v))
+}
+
+// jsonFieldPath finds the field a JSON member name decodes into: by json tag (or field name, case-insensitively, when
+// untagged) at the shallowest embedding depth, as encoding/json does.
+func jsonFieldPath(st *types.Struct, key string, depth int) ([]int, types.Type) {
+	if depth > 3 {
+		return nil, nil
+	}
+	for i := 0; i < st.NumFields(); i++ {
+		f := st.Field(i)
+		tag := jsonTagName(st.Tag(i))
+		if tag == "-" {
+			continue
+		}
+		if f.Embedded() && tag == "" {
+			continue
+		}
+		name := tag
+		if name == "" {
+			name = f.Name()
+			if !f.Exported() {
+				continue
+			}
+			if !equalFold(name, key) {
+				continue
+			}
+			return []int{i}, f.Type()
+		}
+		if name == key {
+			return []int{i}, f.Type()
+		}
+	}
+	for i := 0; i < st.NumFields(); i++ {
+		f := st.Field(i)
+		if !f.Embedded() || jsonTagName(st.Tag(i)) != "" {
+			continue
+		}
+		t := f.Type()
+		if pt, ok := t.Underlying().(*types.Pointer); ok {
+			t = pt.Elem()
+		}
+		if es, ok := t.Underlying().(*types.Struct); ok {
+			if p, ft := jsonFieldPath(es, key, depth+1); p != nil {
+				return append([]int{i}, p...), ft
+			}
+		}
+	}
+	return nil, nil
+}
+
+func jsonTagName(tag string) string {
+	const k = `json:"`
+	for i := 0; i+len(k) <= len(tag); i++ {
+		if tag[i:i+len(k)] == k {
+			rest := tag[i+len(k):]
+			for j := 0; j < len(rest); j++ {
+				if rest[j] == '"' || rest[j] == ',' {
+					return rest[:j]
+				}
+			}
+		}
+	}
+	return ""
+}
+
+func equalFold(a, b string) bool {
+	if len(a) != len(b) {
+		return false
+	}
+	for i := 0; i < len(a); i++ {
+		x, y := a[i], b[i]
+		if 'A' <= x && x <= 'Z' {
+			x += 'a' - 'A'
+		}
+		if 'A' <= y && y <= 'Z' {
+			y += 'a' - 'A'
+		}
+		if x != y {
+			return false
+		}
+	}
+	return true
 }
